@@ -276,13 +276,31 @@ pub struct World {
     pub wallet: Vec<WCoin>,
     pub graveyard: Vec<CoinID>,
     pub reg: Registry,
-    pub pool: rayon::ThreadPool,
+    pub pool: std::rc::Rc<rayon::ThreadPool>,
     /// total value handed out by faucets / genesis per denomination (supply cap)
     pub issued: HashMap<Denom, u128>,
     pub custom_denoms: Vec<Denom>,
     pub staked_txs: Vec<(TxHash, StakeDoc, CovSpec)>,
     pub faucets_seen: Vec<Transaction>,
     pub blocks_sealed: u64,
+}
+
+/// One 2-thread rayon pool per shard thread, reused by every World created on that thread.
+pub fn shard_pool(shard: usize) -> std::rc::Rc<rayon::ThreadPool> {
+    thread_local! {
+        static POOL: std::cell::RefCell<Option<(usize, std::rc::Rc<rayon::ThreadPool>)>> = const { std::cell::RefCell::new(None) };
+    }
+    POOL.with(|p| {
+        let mut p = p.borrow_mut();
+        match &*p {
+            Some((s, pool)) if *s == shard => pool.clone(),
+            _ => {
+                let pool = std::rc::Rc::new(mk_pool(shard, 2));
+                *p = Some((shard, pool.clone()));
+                pool
+            }
+        }
+    })
 }
 
 pub fn mk_pool(shard: usize, threads: usize) -> rayon::ThreadPool {
@@ -331,7 +349,7 @@ impl World {
             wallet,
             graveyard: vec![],
             reg,
-            pool: mk_pool(shard, 2),
+            pool: shard_pool(shard),
             issued,
             custom_denoms: vec![],
             staked_txs: vec![],
